@@ -816,23 +816,23 @@ func Orchestrate(id string, p Params) int {
 
 	distinct := len(merged.hashSet)
 	cov := map[string]interface{}{
-		"evaluations":         merged.Evaluations,
-		"distinct_nontrivial": distinct,
-		"rule":                ck.Rule,
-		"samples":             merged.Samples,
-		"exhaustive":          ck.Exhaustive != nil && ck.Exhaustive(p),
-		"witness_cases":       len(wits),
-		"generated_cases":     total - len(wits),
-		"workers":             nw,
-		"counters":            merged.Counters,
-		"max_counters":        merged.MaxCounters,
-		"inconclusive":        merged.Inconclusive,
-		"tables":              summarizeCover(merged.Cover),
-		"known_findings_reproduced": knownRepro,
-		"known_findings_not_observed": knownStale,
+		"evaluations":                  merged.Evaluations,
+		"distinct_nontrivial":          distinct,
+		"rule":                         ck.Rule,
+		"samples":                      merged.Samples,
+		"exhaustive":                   ck.Exhaustive != nil && ck.Exhaustive(p),
+		"witness_cases":                len(wits),
+		"generated_cases":              total - len(wits),
+		"workers":                      nw,
+		"counters":                     merged.Counters,
+		"max_counters":                 merged.MaxCounters,
+		"inconclusive":                 merged.Inconclusive,
+		"tables":                       summarizeCover(merged.Cover),
+		"known_findings_reproduced":    knownRepro,
+		"known_findings_not_observed":  knownStale,
 		"unknown_violation_signatures": keys(seenSig),
-		"race_detector":       race,
-		"twins":               twinInfo,
+		"race_detector":                race,
+		"twins":                        twinInfo,
 	}
 	if len(merged.Logs) > 0 {
 		if len(merged.Logs) > 40 {
